@@ -292,11 +292,9 @@ func (env *SpecEnv) deref(p Val) Val {
 	return Val{}
 }
 
+// heapMap: the heap view of this environment; nil means the live heap of the state.
 func (env *SpecEnv) heapMap() map[string]string {
-	if env.heap != nil {
-		return env.heap
-	}
-	return env.st.heap
+	return env.heap
 }
 
 func (env *SpecEnv) selectField(base Val, field string) Val {
@@ -512,6 +510,43 @@ func (env *SpecEnv) evalQuant(n *SNode) Val {
 		names = append(names, name)
 	}
 	var lo, hi string
+	if n.Args[0] != nil && n.Args[0].Op == "call" && (n.Args[0].Text == "refs" || n.Args[0].Text == "oldrefs") {
+		// typed reference quantifier; oldrefs: only references that existed in the old() state
+		tn := n.Args[0].Args[0].Text
+		var pt types.Type
+		if env.pkg != nil {
+			if o := env.pkg.Types.Scope().Lookup(tn); o != nil {
+				pt = types.NewPointer(o.Type())
+			}
+		}
+		if pt == nil {
+			env.fail("refs(%s): unknown type", tn)
+		}
+		for i, v := range n.Vars {
+			bind[v] = vInt(names[i], pt)
+		}
+		c := env.child(bind)
+		body := c.evalBool(n.Args[2])
+		if n.Args[0].Text == "oldrefs" {
+			oldAlloc := env.st.fc.entryAlloc()
+			if env.old != nil && env.old.alloc != "" {
+				oldAlloc = env.old.alloc
+			}
+			var bs []string
+			for _, nm := range names {
+				bs = append(bs, sCmp("<", nm, oldAlloc))
+			}
+			if n.Op == "forall" {
+				body = sImp(sAnd(bs...), body)
+			} else {
+				body = sAnd(append(bs, body)...)
+			}
+		}
+		if n.Op == "forall" {
+			return vBool(fmt.Sprintf("(forall (%s) %s)", strings.Join(decl, " "), body))
+		}
+		return vBool(fmt.Sprintf("(exists (%s) %s)", strings.Join(decl, " "), body))
+	}
 	if n.Args[0] != nil {
 		lo = env.eval(n.Args[0]).S
 		hi = env.eval(n.Args[1]).S
@@ -690,7 +725,7 @@ func (env *SpecEnv) evalCall(n *SNode) Val {
 		a := env.eval(n.Args[0])
 		b := env.eval(n.Args[1])
 		c := st.fc.fresh("comp", "(Array Int Int)")
-		st.facts = st.facts.push(fmt.Sprintf("(forall ((g_k Int)) (! (= (select %s g_k) (select %s (select %s g_k))) :pattern ((select %s g_k))))", c, a.S, b.S, c))
+		st.addFact(fmt.Sprintf("(forall ((g_k Int)) (! (= (select %s g_k) (select %s (select %s g_k))) :pattern ((select %s g_k))))", c, a.S, b.S, c))
 		return vRaw(c, "(Array Int Int)")
 	case "swapseq":
 		a := env.eval(n.Args[0])
